@@ -20,6 +20,9 @@ pub enum ContractError {
     #[error("No voters")]
     NoVoters {},
 
+    #[error("Voter listed more than once")]
+    DuplicateVoter {},
+
     #[error("Unauthorized")]
     Unauthorized {},
 
